@@ -472,6 +472,9 @@ def xsd_repr(value: AnyXSDType) -> str:
         return value.hex()
     elif isinstance(value, str):
         return value
+    elif isinstance(value, Decimal):
+        # xs:decimal has no exponent notation
+        return format(value, "f")
     elif isinstance(value, float):
         return repr(value).translate({0x65: 'E', 0x66: 'F', 0x69: 'I', 0x6e: 'N'})
     else:
